@@ -99,6 +99,23 @@ def install(lib):
         out += running(st)
         return out
 
+    def fresh_recount(ex, ordinal, ynode, st):
+        """C17 (I-fresh): the stored state_rep is the count made by the last update_state_rep (its own contract); here: since
+        that recount -- or since this segment began, if it made none -- no thread state and not the worker list has
+        changed, so what is charged while the process waits is the activity the workers really have"""
+        base = st.ghost.get("rep_base")
+        if base is None or base[2] != st.ghost.get("seg_id", 0):      # (a recount made in an earlier segment is stale)
+            lr = st.ghost.get("last_resume")
+            if lr is None and ex.ctx.fname == "behaviour":
+                return      # the set-up wait: no worker exists yet and the accounting has not started (state_rep is (-1, -1))
+            base = (st.ghost["last_resume_thread_state"], lr["worker_thread_list"]) if lr is not None else \
+                (ex.ctx.old.heap_arr("thread_state"), ex.ctx.old.f["worker_thread_list"])
+        ex.ctx.oblige("yield%d.state-rep-recounted-after-the-last-thread-state-change" % ordinal, st,
+                      [st.heap_arr("thread_state") == base[0]], "yield", ynode.lineno, ("C17",))
+        if st.f["worker_thread_list"] is not base[1]:
+            for k_, cl_ in enumerate(V.list_eq_clauses(st.f["worker_thread_list"], base[1], "wl-since-recount")):
+                ex.ctx.oblige("yield%d.state-rep-recounted-after-the-last-worker-list-change.%d" % (ordinal, k_), st, [cl_], "yield", ynode.lineno, ("C17",))
+
     def worker_at_yield(ex, ordinal, ynode, value, st):
         if ordinal == 0:
             ok = isinstance(value, VTimeout)
@@ -107,6 +124,7 @@ def install(lib):
                           ynode.lineno, ("C08",))
         for nm, cl, props in lib.invariant("Machine", st, side="prove"):
             ex.ctx.oblige("yield%d.inv.%s" % (ordinal, nm), st, [cl], "yield-inv", ynode.lineno, props)
+        fresh_recount(ex, ordinal, ynode, st)
         # C18: whenever the worker waits, the processed counter equals the number of items it has really pushed
         old = ex.ctx.old
         it = ex.ctx.args["item"].t
@@ -201,6 +219,16 @@ def install(lib):
         gets = st.ghost.get("gets", [])
         sp = [x for x in st.ghost.get("spawned", []) if x[0] == "worker"]
         out = []
+        # C17 (I-fresh) at the end of a round: the new worker is listed and marked before the last recount of the round
+        base = st.ghost.get("rep_base")
+        lr = st.ghost.get("last_resume")
+        if base is None or base[2] != st.ghost.get("seg_id", 0):
+            base = (st.ghost.get("last_resume_thread_state"), lr["worker_thread_list"]) if lr is not None else None
+        if base is not None and base[0] is not None:
+            out.append(("state-rep-recounted-after-the-last-thread-state-change", st.heap_arr("thread_state") == base[0], ("C17",)))
+            if st.f["worker_thread_list"] is not base[1]:
+                for k_, cl_ in enumerate(V.list_eq_clauses(st.f["worker_thread_list"], base[1], "wl-since-recount")):
+                    out.append(("state-rep-recounted-after-the-last-worker-list-change.%d" % k_, cl_, ("C17",)))
         if not gets:
             out.append(("no-worker-without-an-item", z3.BoolVal(len(sp) == 0)))
             return out
@@ -236,6 +264,7 @@ def install(lib):
         # during set-up the accounting invariant is not yet established
         for nm, cl, props in lib.invariant("Machine", st, side="prove"):
             ex.ctx.oblige("yield%d.inv.%s" % (ordinal, nm), st, [cl], "yield-inv", ynode.lineno, props)
+        fresh_recount(ex, ordinal, ynode, st)
     b = FnContract(
         "behaviour", [], is_generator=True, uses_inv=False, keeps_inv=False,
         entry_assume=lambda st, args: edges_assumptions(st, "in_edges") + edges_assumptions(st, "out_edges") + [
